@@ -40,6 +40,12 @@ def one_period_cost(ds, h, p, y, mean, sd):
 		n = sd * (norm.pdf(z) - z * (1 - norm.cdf(z)))
 		nbar = n + (y - mean)
 		return h * nbar + p * n
+	if ds.type == 'UC':
+		# uniform on [lo, hi]: exact losses, also OUTSIDE the support (below it every unit of demand is short, above it every unit held)
+		lo_, hi_ = float(ds.lo), float(ds.hi); mu_ = (lo_ + hi_) / 2
+		n = mu_ - y if y <= lo_ else (0.0 if y >= hi_ else (hi_ - y) ** 2 / (2 * (hi_ - lo_)))
+		nbar = 0.0 if y <= lo_ else (y - mu_ if y >= hi_ else (y - lo_) ** 2 / (2 * (hi_ - lo_)))
+		return h * nbar + p * n
 	dist = ds.demand_distribution
 	lo, hi = int(dist.ppf(1e-15)), int(dist.ppf(1 - 1e-15)) + 2
 	tot = 0.0
@@ -126,6 +132,12 @@ def corpus_inputs(name):
 		dsl = [None] * T if name == 'cheap-stockouts' else [DemandSource(type='P', mean=5) for _ in range(T)]
 		hl, pl, cl, Kl, gl = [1] * T, [5] * T, [4] * T, [10] * T, [1.0] * T
 		kw = dict(demand_mean=8, demand_sd=2) if name == 'cheap-stockouts' else dict(demand_source=list(dsl)); kind = 'normal-cheap-stockouts' if name == 'cheap-stockouts' else 'P'
+	elif name == 'uniform-continuous':
+		# a continuous non-normal source (one-period cost by numerical integration in the code: tolerance 1e-6), fixed cost large enough for
+		# reorder points below the support
+		T = 2; dsl = [DemandSource(type='UC', lo=10, hi=30) for _ in range(T)]
+		hl, pl, cl, Kl, gl = [1] * T, [10] * T, [1] * T, [30] * T, [0.95] * T
+		kw = dict(demand_source=list(dsl)); kind = 'UC'
 	elif name == 'forward-buying':
 		# purchase cost jumps after period 1 and holding is cheap: the optimal first order-up-to level lies far above the initial
 		# truncation of the state space, so the code must enlarge its grid and restart
@@ -204,7 +216,7 @@ def run_case(rep, drv, rng, th, corpus=None):
 		pc = [float(v) for v in cm[t + 1]]
 		rep.tol_cmp += n
 		worst = max(abs(a - b) / max(1, abs(b)) for a, b in zip(pc, mc))
-		if worst > 1e-8:
+		if worst > (1e-6 if desc['kind'] == 'UC' else 1e-8):
 			i = max(range(n), key=lambda i: abs(pc[i] - mc[i]))
 			diffs.append('cost_matrix[t=%d][x=%d]: python %r, documented recursion %r' % (t + 1, x_min + i, pc[i], mc[i]))
 		# oul attains the minimum (by objective value): cost at python's oul equals the model's optimum
@@ -309,7 +321,7 @@ def run(rep, drv):
 				'custom-discrete sources; every cell of cost_matrix vs the documented recursion (exact model), oul by objective value, (s,S) extraction, evaluation mode, K=0; '
 				'myopic bounds. non-trivial = all')
 	rng = random.Random(rep.seed + 12)
-	for name in ('mixed-equal-moments', 'rising-fixed-costs', 'forward-buying', 'source-edited-in-place', 'varying-everything', 'cheap-stockouts', 'cheap-stockouts-poisson'):
+	for name in ('mixed-equal-moments', 'rising-fixed-costs', 'forward-buying', 'source-edited-in-place', 'varying-everything', 'cheap-stockouts', 'cheap-stockouts-poisson', 'uniform-continuous'):
 		run_case(rep, drv, rng, th, corpus=name)
 	for k in range(300 if th else 34):
 		run_case(rep, drv, rng, th)
